@@ -16,6 +16,7 @@ import (
 	"github.com/zishang520/engine.io/v2/types"
 	"github.com/zishang520/engine.io/v2/utils"
 
+	"strings"
 	"verifh/rep"
 )
 
@@ -633,7 +634,7 @@ func onceStorm(r *rep.Report, rounds int) {
 func TestC20(t *testing.T) {
 	r := rep.New(t, "C20")
 	defer r.Flush()
-	r.Rule("sequential: PRNG operation sequences (3-40 ops) over the full method sets of Slice, Set, Map (value types int, string, pointer, zero-size struct) and the emitter, each result compared with a reference model, caller-owned slices with spare capacity overwritten after the call; concurrent: recorded histories of 2-8 goroutines x <=6 ops with unique written values checked by porcupine (Map and Set partitioned per key, Slice as one sequence), Once under concurrent emits, 16-goroutine id storms; gate lane: each Map operation held in its slow path (hook map.slowPath) across a promotion of the dirty map; distinct = distinct operation-name sequences / distinct call-order signatures with at least one overlapping pair")
+	r.Rule("sequential: PRNG operation sequences (3-40 ops) over the full method sets of Slice, Set, Map (value types int, string, pointer, zero-size struct) and the emitter, each result compared with a reference model, caller-owned slices with spare capacity overwritten after the call; concurrent: recorded histories of 2-8 goroutines x <=6 ops with unique written values checked by porcupine (Map and Set partitioned per key, Slice as one sequence), Once under concurrent emits, multi-word Slice elements (four-field structs, strings) overwritten by index and spliced while every reading method runs (a torn element is one nobody stored), 16-goroutine id storms; gate lane: each Map operation held in its slow path (hook map.slowPath) across a promotion of the dirty map; distinct = distinct operation-name sequences / distinct call-order signatures with at least one overlapping pair")
 	r.Assume("RemoveListener of a function registered several times may remove any one registration (every choice is tracked); listeners are distinct top-level functions because the emitter identifies a listener by its code pointer")
 	nseq := r.N(12000, 600000)
 	runSeq(r, "Slice", nseq, seqSlice, 201)
@@ -675,6 +676,7 @@ func TestC20(t *testing.T) {
 	checkHistories(r, "Map", nh, mapModel, concMapHistory, 210)
 	checkHistories(r, "Set", nh/2, setModel, concSetHistory, 211)
 	checkHistories(r, "Slice", nh/2, sliceModel, concSliceHistory, 212)
+	sliceElementStorm(r, r.N(24, 1200))
 	onceStorm(r, r.N(400, 20000))
 	registrationStorm(r, r.N(4000, 200000))
 
@@ -683,4 +685,109 @@ func TestC20(t *testing.T) {
 	y := utils.NewYeast()
 	idStorm(r, "yeast", 16, per, func() (string, error) { return y.Yeast(), nil })
 	idStorm(r, "yeast-sequential", 1, per, func() (string, error) { return y.Yeast(), nil })
+}
+
+type quad struct{ A, B, C, D int64 }
+
+// sliceElementStorm: elements wider than a machine word (a four-field struct, a string) are
+// overwritten by index, spliced, pushed and popped by some goroutines while others read through
+// every reading method.  Every value ever stored has four equal fields (or is a string of one
+// repeated letter whose length matches its letter), so a reader that sees anything else has seen
+// a torn element - a store and a copy that overlapped.  (The race detector watches as well.)
+func sliceElementStorm(r *rep.Report, rounds int) {
+	for round := 0; round < rounds; round++ {
+		s := types.NewSlice[quad]()
+		st := types.NewSlice[string]()
+		for i := 0; i < 8; i++ {
+			s.Push(quad{int64(i), int64(i), int64(i), int64(i)})
+			st.Push(strings.Repeat(string(rune('a'+i)), 3+i))
+		}
+		var bad atomic.Int64
+		var witness atomic.Value
+		okQ := func(q quad) {
+			if q.A != q.B || q.B != q.C || q.C != q.D {
+				bad.Add(1)
+				witness.Store(fmt.Sprintf("%+v", q))
+			}
+		}
+		okS := func(x string) {
+			if len(x) == 0 || len(x) != 3+int(x[0]-'a') || strings.Trim(x, x[:1]) != "" {
+				bad.Add(1)
+				witness.Store(fmt.Sprintf("%q", x))
+			}
+		}
+		var wg sync.WaitGroup
+		stop := make(chan struct{})
+		for g := 0; g < 3; g++ {
+			wg.Add(1)
+			go func(g int) {
+				defer wg.Done()
+				for k := int64(1); ; k++ {
+					select {
+					case <-stop:
+						return
+					default:
+					}
+					v := k*8 + int64(g)
+					s.Set(int(k)%8, quad{v, v, v, v})
+					st.Set(int(k)%8, strings.Repeat(string(rune('a'+int(v)%20)), 3+int(v)%20))
+					if k%64 == 0 {
+						s.Splice(int(k/64)%8, 1, quad{-v, -v, -v, -v})
+					}
+				}
+			}(g)
+		}
+		var rwg sync.WaitGroup
+		for g := 0; g < 3; g++ {
+			rwg.Add(1)
+			go func(g int) {
+				defer rwg.Done()
+				for k := 0; k < 4000; k++ {
+					switch (k + g) % 6 {
+					case 0:
+						if q, err := s.Get(k % 8); err == nil {
+							okQ(q)
+						}
+						if x, err := st.Get(k % 8); err == nil {
+							okS(x)
+						}
+					case 1:
+						for _, q := range s.All() {
+							okQ(q)
+						}
+						for _, x := range st.All() {
+							okS(x)
+						}
+					case 2:
+						if qs, err := s.Slice(0, 4); err == nil {
+							for _, q := range qs {
+								okQ(q)
+							}
+						}
+					case 3:
+						s.Range(func(q quad, _ int) bool { okQ(q); return true })
+						st.Range(func(x string, _ int) bool { okS(x); return true })
+					case 4:
+						s.Filter(func(q quad) bool { okQ(q); return false })
+						s.FindIndex(func(q quad) bool { okQ(q); return false })
+					case 5:
+						s.DoRead(func(qs []quad) {
+							for _, q := range qs {
+								okQ(q)
+							}
+						})
+					}
+				}
+			}(g)
+		}
+		rwg.Wait()
+		close(stop)
+		wg.Wait()
+		r.Case("slice-element-storm", true)
+		r.Obs("slice_element_storm_rounds", 1)
+		if n := bad.Load(); n > 0 {
+			r.Violationf("slice-torn-element", map[string]any{"lane": "multi-word elements overwritten by index while other goroutines read"}, "%d reads returned an element nobody ever stored (e.g. %v): a Set and a read of the same slot overlapped", n, witness.Load())
+			return
+		}
+	}
 }
